@@ -219,6 +219,11 @@ Fixpoint copy_fwd (n : nat) (w : tr) (src dst : N) : tr :=
 Fixpoint put_list (l : list N) (w : tr) (dst : N) : tr :=
   match l with [] => w | b :: r => put_list r (tset WND w dst b) (dst + 1) end.
 
+(* ghost checks: the model "goes wrong" with this status wherever the C code would touch memory outside the window / the E8 buffer;
+   Proofs/LzxSafe.v shows it never does *)
+Definition OOB : N := 96.
+Definition inb (ws src dst n : N) : bool := (src + n <=? ws) && (dst + n <=? ws).
+
 Definition extra_of (slot : N) : N := if 36 <=? slot then 17 else nthN lzx_extra_bits slot.
 
 Definition delta_extra_len : lm N :=
@@ -236,6 +241,7 @@ Definition decode_symbol : lm N :=
   s <- get ;;
   me <- read_huffsym (main_tab s) (main_len s) MAINTREE_BITS MAINTREE_SYMS ;;
   if me <? NUM_CHARS then
+    sl <- get ;; if wsize sl <=? wposn sl then fail OOB else           (* ghost: window[window_posn++] = sym *)
     _ <- modify (fun s => s <| win := tset WND (win s) (wposn s) me |> <| wposn := wposn s + 1 |>) ;; ret 1
   else
     let m := me - NUM_CHARS in
@@ -268,11 +274,14 @@ Definition decode_symbol : lm N :=
       if (offset s4 <? mo) && (refsize s4 <? mo - wposn s4) then fail ERR_DECRUNCH else
       let j := mo - wposn s4 in
       if wsize s4 <? j then fail ERR_DECRUNCH else
+      if negb (if j <? ml then inb (wsize s4) (wsize s4 - j) (wposn s4) j && inb (wsize s4) 0 (wposn s4 + j) (ml - j)
+               else inb (wsize s4) (wsize s4 - j) (wposn s4) ml) then fail OOB else      (* ghost: both copy loops stay inside the window *)
       let w' := if j <? ml
                 then copy_fwd (N.to_nat (ml - j)) (copy_fwd (N.to_nat j) (win s4) (wsize s4 - j) (wposn s4)) 0 (wposn s4 + j)
                 else copy_fwd (N.to_nat ml) (win s4) (wsize s4 - j) (wposn s4) in
       _ <- put (s4 <| win := w' |> <| wposn := wposn s4 + ml |>) ;; ret ml
     else
+      if negb (inb (wsize s4) (wposn s4 - mo) (wposn s4) ml) then fail OOB else            (* ghost *)
       _ <- put (s4 <| win := copy_fwd (N.to_nat ml) (win s4) (wposn s4 - mo) (wposn s4) |> <| wposn := wposn s4 + ml |>) ;; ret ml.
 
 (* while (this_run > 0) over symbols; this_run may end negative *)
@@ -292,6 +301,7 @@ Fixpoint todo_loop (fuel : nat) (bytes_todo : Z) : lm unit :=
     _ <- modify (fun s => s <| brem := Z.to_N (Z.of_N (brem s) - this_run) |>) ;;
     tr_ <- (if (btype s1 =? 1) || (btype s1 =? 2) then sym_loop 40000 this_run
             else if btype s1 =? 3 then
+              sc <- get ;; if wsize sc <? wposn sc + Z.to_N this_run then fail OOB else     (* ghost: the raw copy stays inside the window *)
               l <- copy_in (Z.to_N this_run) ;;
               _ <- modify (fun s => s <| win := put_list l (win s) (wposn s) |> <| wposn := wposn s + Z.to_N this_run |>) ;; ret 0%Z
             else fail ERR_DECRUNCH) ;;
@@ -348,6 +358,7 @@ Fixpoint frame_loop (fuel : nat) (end_frame : N) (out_bytes : N) : lm N :=
     s4 <- get ;; _ <- (if negb (N.land (bl s4) 15 =? 0) then remove (N.land (bl s4) 15) else ret tt) ;;
     s5 <- get ;;
     if negb (optr s5 =? oend s5) then fail ERR_DECRUNCH else
+    if (FRAME_SIZE <? frame_size) || (wsize s5 <? fposn s5 + frame_size) then fail OOB else   (* ghost: e8_buf[LZX_FRAME_SIZE], &window[frame_posn] *)
     _ <- (if intel_started s5 && negb (intel_filesize s5 =? 0) && (frame s5 <? 32768) && (10 <? frame_size) then
             let fb := span (N.to_nat frame_size) (win s5) (fposn s5) [] in
             let d0 := put_list fb Emp 0 in
